@@ -352,13 +352,23 @@ def t1_loops(ctx):
         ctx.fn(b)
         rev_budget = REVIEWED_LOOPS.get(p, (0, ''))[0]
         cur_budget = CURSOR_LOOPS.get(p, 0)
+        if not cur_budget:
+            # a private helper of a parser function (extract-method of the operand loop) inherits its owner's template
+            cur = p
+            for _ in range(3):
+                cur = ctx.cg.owner_step(cur)
+                if cur is None:
+                    break
+                if cur in CURSOR_LOOPS:
+                    cur_budget = CURSOR_LOOPS[cur]
+                    break
         for L in loops:
             tpl, detail = loop_template(ctx, b, L)
             site = b.blocks[L['head']]['term']['loc']
             if tpl:
                 ctx.ok('T1', '%s loop@bb%d: %s (%s)' % (fn_key(p), L['head'], tpl, detail), tpl, site=site, sample=False)
                 continue
-            if p in FLAG_LOOPS and flag_loop_ok(ctx, b, L, FLAG_LOOPS[p][0]):
+            if p in FLAG_LOOPS and (flag_loop_ok(ctx, b, L, FLAG_LOOPS[p][0]) or rewrite_loop_ok(ctx, b, L)):
                 ok3, msg3 = w_variable_tokens_inert(ctx) if p == 'variable::update_token_variables' else (True, '')
                 if not ok3:
                     ctx.finding('T1', '%s/rewrite-loop/variable-token-matches-field' % fn_key(p), 'variable substitution loop: %s' % msg3, site=site)
@@ -379,6 +389,32 @@ def t1_loops(ctx):
     cursor_witness(ctx)
 
 
+def insert_blocks(ctx, b):
+    """blocks of b that insert one element into Tokinizer.token_infos - directly, or by calling a crate-local helper whose
+    body does (extract-method of the rewrite step)"""
+    out = set()
+    for bid, tt, method, recv in collection_writes(b):
+        if method == 'insert' and 'tokinizer::Tokinizer.token_infos' in spine_fields(recv):
+            out.add(bid)
+    for bid, t in b.calls(local=True):
+        hb = ctx.facts.bodies.get(t['callee']['path'])
+        if hb is None or hb.path == b.path or hb.kind not in ('fn', 'method'):
+            continue
+        for _b, tt, method, recv in collection_writes(hb):
+            if method == 'insert' and 'tokinizer::Tokinizer.token_infos' in spine_fields(recv) and not hb.in_loop(_b):
+                out.add(bid)
+    return out
+
+
+def rewrite_loop_ok(ctx, b, L):
+    """`loop { match find() { None => break, Some(..) => { remove; insert } } }`: every way around the loop passes a block
+    that inserts into token_infos (so each iteration is one rewrite); no flag needed"""
+    ins = insert_blocks(ctx, b) & set(L['body'])
+    if not ins:
+        return False
+    return not b.can_reach(L['head'], L['head'], avoid=ins)
+
+
 def flag_loop_ok(ctx, b, L, flag):
     """`while flag { flag = false; ... }`: flag is assigned true only in blocks from which the loop head cannot be
     reached without passing the insert that completes a rewrite"""
@@ -388,10 +424,7 @@ def flag_loop_ok(ctx, b, L, flag):
     t = b.blocks[L['head']]['term']
     if t['k'] != 'switch' or render(b.sexpr(t['discr'])).lstrip('$') != flag and flag not in render(b.sexpr(t['discr'])):
         return False
-    inserts = set()
-    for bid, tt, method, recv in collection_writes(b):
-        if method == 'insert' and 'tokinizer::Tokinizer.token_infos' in spine_fields(recv):
-            inserts.add(bid)
+    inserts = insert_blocks(ctx, b)
     sets_true = []
     reset = False
     for i in L['body']:
